@@ -189,6 +189,21 @@ pub fn gen(out: &mut dyn Write, which: &str, seed: u64, thorough: bool) {
                 emit_within(out, &mut hist, si, &c, &burst, "burst");
             }
         }
+        // many exactly-t patterns on small sizes: about 1 in 257 has a singular leading Hankel
+        // minor, which drives the "singular case" of the Levinson-Durbin recursion
+        for _ in 0..(if thorough { 60000 } else { 6000 }) {
+            let si = *rng.pick(&[0usize, 1, 2, 3, 4, 5, 6, 7, 8]);
+            let g = geom(si);
+            let t = g.k / 2;
+            let zero = vec![0u8; g.total];
+            let mut used = std::collections::BTreeSet::new();
+            let w = if rng.chance(1, 4) { 1 + rng.below(t) } else { t };
+            while used.len() < w {
+                used.insert(rng.below(g.total));
+            }
+            let errs: Vec<(usize, u8)> = used.into_iter().map(|p| (p, 1 + rng.below(255) as u8)).collect();
+            emit_within(out, &mut hist, si, &zero, &errs, "small_exactly_t");
+        }
         // all double errors of 10x10 (thorough) / a sample (quick)
         let g = geom(0);
         let zero = vec![0u8; g.total];
